@@ -225,3 +225,65 @@ def Store.reencodeOk (s : Store) : Bool :=
       addrs.length = m.blockLen + 1 && ((s.addrs.drop m.offset).take bytes.length == bytes))
 
 end TantivyModel.SSTable
+
+namespace TantivyModel.SSTable
+open TantivyModel
+
+/-! ### the whole store as the writer serialises it (`BlockAddrStoreWriter::serialize`) -/
+
+def le4 (x : Nat) : List UInt8 :=
+  [UInt8.ofNat (x % 256), UInt8.ofNat (x / 256 % 256), UInt8.ofNat (x / 65536 % 256),
+   UInt8.ofNat (x / 16777216 % 256)]
+
+def le2 (x : Nat) : List UInt8 := [UInt8.ofNat (x % 256), UInt8.ofNat (x / 256 % 256)]
+
+/-- one store block to be written: slopes, widths, reference address, further addresses, final end -/
+structure GroupSpec where
+  rs : Nat
+  rb : Nat
+  os : Nat
+  ob : Nat
+  ref : BlockAddr
+  more : List BlockAddr
+  lastStop : Nat
+
+def GroupSpec.bytes (g : GroupSpec) : List UInt8 :=
+  bitPack (groupFields g.rs g.rb g.os g.ob g.ref g.more g.lastStop)
+
+/-- mirrors: BlockAddrBlockMetadata::serialize -/
+def metaBytes (g : GroupSpec) (offset : Nat) : List UInt8 :=
+  le8 offset ++ (le8 g.ref.start ++ (le8 g.ref.firstOrd ++ (le4 g.rs ++ (le4 g.os ++
+    (UInt8.ofNat g.ob :: UInt8.ofNat g.rb :: le2 g.more.length)))))
+
+/-- metadata records with the running offset into the packed data -/
+def storeMetas : Nat → List GroupSpec → List UInt8
+  | _, [] => []
+  | off, g :: gs => metaBytes g off ++ storeMetas (off + g.bytes.length) gs
+
+def storeData (gs : List GroupSpec) : List UInt8 := (gs.map (·.bytes)).flatten
+
+/-- mirrors: BlockAddrStoreWriter::serialize — `u64 len(metadata) | metadata | packed data` -/
+def storeBytes (gs : List GroupSpec) : List UInt8 :=
+  le8 (META_SIZE * gs.length) ++ (storeMetas 0 gs ++ storeData gs)
+
+end TantivyModel.SSTable
+
+namespace TantivyModel.SSTable
+open TantivyModel
+
+/-- the store blocks of a decoded store as writer input (slopes and widths from the metadata) -/
+def Store.groupSpecs (s : Store) : List GroupSpec :=
+  (List.range s.numGroups).filterMap (fun g =>
+    let m := parseMeta (s.metas.drop (g * META_SIZE))
+    let ids := (List.range (m.blockLen + 1)).map (fun i => g * Gen.STORE_BLOCK_LEN + i)
+    match ids.filterMap s.get with
+    | [] => none
+    | ref :: more =>
+      some ⟨m.rangeSlope, m.rangeBits, m.ordSlope, m.ordBits, ref, more,
+            ((ref :: more).getLast?.map (·.stop)).getD 0⟩)
+
+/-- the whole store region re-serialised by the writer model equals the bytes of the file -/
+def reencodeStoreOk (bytes : List UInt8) : Bool :=
+  storeBytes (openStore bytes).groupSpecs == bytes
+
+end TantivyModel.SSTable
